@@ -397,7 +397,7 @@ Section Runner.
     end.
 End Runner.
 
-(* ---- the four programs / account types compiled into the harness ---- *)
+(* ---- the programs / account types compiled into the harness ---- *)
 Definition fx_mut3 (x : Z) (v : TFx) : TFx := let '(a, (b, cd)) := v in (a, (x, cd)).
 Definition fx_mut4 (x : Z) (v : TFx) : TFx := let '(a, bcd) := v in (x, bcd).
 Definition bv_mut3 (x : Z) (v : list Z) : list Z := v ++ [x].
@@ -409,6 +409,10 @@ Definition ns_mut3 (x : Z) (v : TNs) : TNs :=
 Definition ns_mut4 (x : Z) (v : TNs) : TNs :=
   let '(id, ((flag, label), (items, opt))) := v in (id, ((negb flag, label), (items, Some x))).
 
+(* BTreeSet::insert(x as u8) / BTreeSet::remove(&(x as u8)) *)
+Definition sb_mut3 (x : Z) (v : list Z) : list Z := set_ins (x mod 256) v.
+Definition sb_mut4 (x : Z) (v : list Z) : list Z := set_del (x mod 256) v.
+
 Definition PID_A : key := repeat 21 32.
 Definition PID_B : key := repeat 22 32.
 Definition PID_C : key := repeat 23 32.
@@ -416,6 +420,7 @@ Definition DISC_FX : list Z := [1; 2; 3; 4; 5; 6; 7; 8].
 Definition DISC_BV : list Z := [176; 177; 178; 179; 180; 181; 182; 183].
 Definition DISC_ST : list Z := [90].
 Definition DISC_NS : list Z := [222; 192; 222; 192].
+Definition DISC_SB : list Z := [164; 83; 66; 95; 115; 101; 116; 33].
 
 Definition run_c15_with (fixed : bool) (input : list Z) : list Z :=
   match input with
@@ -424,6 +429,7 @@ Definition run_c15_with (fixed : bool) (input : list Z) : list Z :=
       else if ty =? 1 then run_generic (list Z) c_bv bv_mut3 bv_mut4 fixed PID_A 8 DISC_BV r
       else if ty =? 2 then run_generic (list Z) c_st st_mut3 st_mut4 fixed PID_B 1 DISC_ST r
       else if ty =? 3 then run_generic TNs c_ns ns_mut3 ns_mut4 fixed PID_C 4 DISC_NS r
+      else if ty =? 4 then run_generic (list Z) c_sb sb_mut3 sb_mut4 fixed PID_A 8 DISC_SB r
       else [-2]
   | [] => [-2]
   end.
